@@ -138,6 +138,9 @@ def _opt_eq(got, exp):
 def _check_all(P, choose, value, check, fail):
     from pytezos.michelson import types as t
 
+    global PTR
+    PTR = P.get('ptr', 7)
+
     ctx, bm, model, chain, U = _mk_state(P, choose, value)
     k = choose('k', 0, len(U) - 1)
     op = P['op']
@@ -337,6 +340,12 @@ def obligations(tier):
                 P = {'op': op, 'fresh': fresh, 'nkeys': 3 if (q or keys == 'pair') else 4, 'keys': keys}
                 obs.append(Ob(f'{"fresh" if fresh else "existing"}/{op}/{keys}', 'bvx', sym_step, conc_step, P, timeout=t,
                               bounds=f'every state over {P["nkeys"]} keys (6 situations per key), solver-chosen key, symbolic values; then the lazy diff', targets=TARGETS))
+        if not fresh:
+            # the first big_map allocated on a chain has id 0
+            for op in ('GET', 'MEM', 'UPDATE', 'GET_AND_UPDATE'):
+                P = {'op': op, 'fresh': False, 'nkeys': 2, 'keys': 'nat', 'ptr': 0}
+                obs.append(Ob(f'existing/{op}/nat/big_map-id=0', 'bvx', sym_step, conc_step, P, timeout=t,
+                              bounds='on-chain big_map with id 0: every state over 2 keys, solver-chosen key, symbolic values; then the lazy diff', targets=TARGETS))
         for val in ('string', 'bool'):
             P = {'op': 'UPDATE', 'fresh': fresh, 'nkeys': 2, 'keys': 'nat', 'val': val}
             obs.append(Ob(f'{"fresh" if fresh else "existing"}/UPDATE/nat->{val}', 'bvx', sym_step, conc_step, P, timeout=t,
